@@ -106,4 +106,16 @@ the coordinator's panic branch -/
 theorem whole_run_never_panics (cfg : Txt.Cfg) (fs : Txt.FS) (inputs : List (List Char)) :
     (Txt.runProject cfg fs inputs).1 ≠ .panic := Txt.runProject_never_panics cfg fs inputs
 
+/-- **success means completion, for the concrete run**: if `Txtpp::run` (real passes over the model file
+system) ends `ok`, then at the end nothing is in flight, every resolved input is known to the coordinator,
+every file it ever heard of - inputs and every dependency a first pass reported, transitively - has
+completed a pass that ended `ok`, and every reported dependency is among those files -/
+theorem concrete_success_means_completion (cfg : Txt.Cfg) (fs : Txt.FS) (inputs : List (List Char))
+    (h : (Txt.runProject cfg fs inputs).1 = .ok) :
+    ∃ (idx : List File) (s : St) (hist : List (Task × Res)),
+      FReach idx s hist ∧ s.pool = [] ∧ (∀ i ∈ idx, i ∈ s.seen) ∧
+      (∀ f ∈ s.seen, ∃ b, (Task.pp f b, Res.ok f) ∈ hist) ∧
+      (∀ f deps, (Task.pp f true, Res.hasDeps f deps) ∈ hist → ∀ d ∈ deps, d ∈ s.seen) :=
+  Txt.runProject_ok_complete cfg fs inputs h
+
 end C03
